@@ -1112,6 +1112,12 @@ Inv_C13_UnchangedPackageKeepsTemplate ==
        /\ W.post.kind \in {"ObjectDeployment", "ClusterObjectDeployment"} /\ W.pre.cr.tmplHash # W.post.cr.tmplHash)
     => hist.deployedFor[W.key][1] # PR.snap.cr.tmplHash
 
+\* the unpacked-hash is recorded only by a pass that got the content of the image (valid or not): after a failed pull -
+\* transient or not - nothing is recorded, so the next pass pulls again (PKOPackage!Inv_C16_RecordJustified)
+Inv_C16_RecordJustified ==
+    (lw.valid /\ IsPkgActor(W.actor) /\ W.ev = "StatusUpdate" /\ W.key = PR.target /\ PR.hasSnap /\ W.post.cr.hash # W.pre.cr.hash)
+    => PR.pulled \notin {"", "pullError"}
+
 \* a Package whose spec is unchanged since it was unpacked is not pulled again
 Inv_C16_NoRepull ==
     (lw.valid /\ W.ev = "Pull" /\ IsPkgActor(W.actor) /\ PR.hasSnap)
